@@ -13,7 +13,7 @@ git -C /repo worktree add -q --detach $WT HEAD || exit 2
 if ! git -C $WT apply "$PATCH"; then echo "PATCH DOES NOT APPLY"; git -C /repo worktree remove --force $WT; exit 2; fi
 mkdir -p $ROOT/.build && cp /verif/known_findings.json $ROOT/ && cp /verif/.build/libhashseed.so $ROOT/.build/ 2>/dev/null
 cp -r /verif/mc $MC
-sed -i "s#/repo/#$WT/#g" $MC/Cargo.toml $MC/src/*.rs $MC/src/*/*.rs
+sed -i "s#/repo/#$WT/#g" $MC/Cargo.toml $MC/miri12/Cargo.toml $MC/src/*.rs $MC/src/*/*.rs
 rm -rf $MC/.cargo
 if ! ( cd $MC && CARGO_TARGET_DIR=$TGT cargo build --release --offline 2>&1 | grep -E "^error" -A10 | head -30; exit ${PIPESTATUS[0]} ); then echo "BUILD FAILED"; git -C /repo worktree remove --force $WT; rm -rf $MC $ROOT; exit 2; fi
 for id in "$@"; do
